@@ -1,9 +1,14 @@
 // c09: conformance harness for Sampling.tla / SamplingModel.tla / Trace_Sampling.tla (property C09).
 //
-//	c09 replay -edges F -reps 0,1,2 -par N -out R      replay every TLC edge on a real TracerProvider
+//	c09 replay -edges F -reps 0,1,2,3 -par N -out R    replay every TLC edge on real TracerProviders
 //	c09 forest -n N -out TRACE -res R                random forests x random sampler terms -> ndjson
 //	c09 ratio  -n N -out TRACE -res R                ratio sampler decision matrices -> ndjson
-//	c09 ids    -n N -g G -out TRACE -res R           ID statistics + sampled shares -> ndjson
+//	c09 ids    -n N -g G -out TRACE -res R           ID statistics (one and many providers) + sampled shares
+//	c09 flush  -n N -out TRACE -res R                processors x flag bytes; export under concurrent ForceFlush
+//
+// reps 0..2: scripted ID generators (low bits all-zero / all-one / seeded random); rep 3: the SDK's
+// default random generators, the trace-ID class the edge asks for is obtained by rejection (spans whose
+// fresh trace ID falls into another class are ended and set aside; their IDs still count for uniqueness).
 //
 // Go only executes and projects; every expected value comes from TLC (edge `to` states) or is
 // decided by TLC (Trace_Sampling.tla).
@@ -27,6 +32,7 @@ import (
 	"go.opentelemetry.io/otel"
 	"go.opentelemetry.io/otel/attribute"
 	sdktrace "go.opentelemetry.io/otel/sdk/trace"
+	"go.opentelemetry.io/otel/sdk/trace/tracetest"
 	"go.opentelemetry.io/otel/sdk/verifh/vh"
 	"go.opentelemetry.io/otel/trace"
 )
@@ -79,17 +85,18 @@ func (t *Term) String() string {
 
 // RC is a span context that can be put into a context (Remotes of Sampling.tla).
 type RC struct {
-	Valid   bool   `json:"valid"`
-	Remote  bool   `json:"remote"`
-	Sampled bool   `json:"sampled"`
-	TS      string `json:"ts"`
-	Hi      int    `json:"hi"`
+	Valid  bool   `json:"valid"`
+	Remote bool   `json:"remote"`
+	Fl     int    `json:"fl"` // the trace-flags byte (0x01 = sampled; other bits: W3C random flag, reserved)
+	TS     string `json:"ts"`
+	Hi     int    `json:"hi"`
 }
 
 // Act is one action of Sampling.tla.
 type Act struct {
 	Op      string `json:"op"`
 	Sampler *Term  `json:"sampler,omitempty"`
+	P       int    `json:"p"` // provider (1-based) whose tracer starts the span
 	Kind    string `json:"kind"`
 	I       int    `json:"i"`
 	NewRoot bool   `json:"newRoot"`
@@ -105,6 +112,7 @@ type SpanSt struct {
 	SidOK   bool   `json:"sidOK"`
 	ParOK   bool   `json:"parOK"`
 	Sampled bool   `json:"sampled"`
+	Flx     int    `json:"flx"` // flags byte without the sampled bit
 	Rec     bool   `json:"rec"`
 	TS      string `json:"ts"`
 	TSAlt   string `json:"tsAlt,omitempty"` // model only
@@ -283,6 +291,7 @@ func build(t *Term, rep int) sdktrace.Sampler {
 type scriptGen struct {
 	mu     sync.Mutex
 	rep    int
+	prov   uint64 // provider index: the streams of different providers are disjoint
 	nextHi int
 	nTid   uint64
 	nSid   uint64
@@ -306,14 +315,14 @@ func uniq(n uint64, rep int, rnd *rand.Rand) uint64 {
 	case 1:
 		return ^n
 	case 2:
-		return (n+1)<<40 | rnd.Uint64()&(1<<40-1)
+		return (n+1)<<32 | rnd.Uint64()&(1<<32-1)
 	}
 	return n + 1
 }
 
 func (g *scriptGen) tid() trace.TraceID {
 	var t trace.TraceID
-	binary.BigEndian.PutUint64(t[0:8], uniq(g.nTid, g.rep, g.rnd))
+	binary.BigEndian.PutUint64(t[0:8], uniq(g.prov<<20|g.nTid, g.rep, g.rnd))
 	g.nTid++
 	binary.BigEndian.PutUint64(t[8:16], lowHalf(g.nextHi, g.rep, g.rnd))
 	return t
@@ -321,7 +330,7 @@ func (g *scriptGen) tid() trace.TraceID {
 
 func (g *scriptGen) sid() trace.SpanID {
 	var s trace.SpanID
-	binary.BigEndian.PutUint64(s[:], uniq(g.nSid, g.rep, g.rnd))
+	binary.BigEndian.PutUint64(s[:], uniq(g.prov<<20|g.nSid, g.rep, g.rnd))
 	g.nSid++
 	return s
 }
@@ -341,10 +350,7 @@ func (g *scriptGen) NewSpanID(context.Context, trace.TraceID) trace.SpanID {
 
 // remote span context j: IDs disjoint from everything scriptGen hands out
 func remoteSC(j int, r RC, rep int, rnd *rand.Rand) trace.SpanContext {
-	cfg := trace.SpanContextConfig{Remote: r.Remote, TraceState: mkTS(r.TS, rep)}
-	if r.Sampled {
-		cfg.TraceFlags = trace.FlagsSampled
-	}
+	cfg := trace.SpanContextConfig{Remote: r.Remote, TraceState: mkTS(r.TS, rep), TraceFlags: trace.TraceFlags(r.Fl)}
 	if r.Valid {
 		binary.BigEndian.PutUint64(cfg.TraceID[0:8], 0xC0<<56|uint64(j))
 		binary.BigEndian.PutUint64(cfg.TraceID[8:16], lowHalf(r.Hi, rep, rnd))
@@ -397,7 +403,7 @@ func (p *recProc) OnEnd(s sdktrace.ReadOnlySpan) {
 func (p *recProc) Shutdown(context.Context) error   { return nil }
 func (p *recProc) ForceFlush(context.Context) error { return nil }
 
-// ------------------------------------------------------------------ world: one provider, one forest
+// ------------------------------------------------------------------ world: one process, 1..n providers, one forest
 
 type started struct {
 	span  trace.Span
@@ -406,15 +412,23 @@ type started struct {
 }
 
 type world struct {
-	tp      *sdktrace.TracerProvider
-	tr      trace.Tracer
-	gen     *scriptGen // nil: SDK default random generator
-	rp      *recProc
-	ea, eb  *memExp
-	spans   []started
-	remotes map[int]trace.SpanContext
-	rep     int
-	rnd     *rand.Rand
+	tps      []*sdktrace.TracerProvider
+	trs      []trace.Tracer
+	gens     []*scriptGen // empty: SDK default random generators
+	term     *Term
+	scripted bool
+	matchHi  bool // default generators: obtain the trace-ID class an edge asks for by rejection
+	rp       *recProc
+	ea, eb   *memExp
+	spans    []started
+	remotes  map[int]trace.SpanContext
+	rep      int
+	rnd      *rand.Rand
+	// spans set aside by the rejection (real spans of the process: their IDs count for uniqueness)
+	extraSid  map[trace.SpanID]int
+	extraTid  map[trace.TraceID]int
+	discarded int
+	gaveUp    int
 }
 
 var envMu sync.Mutex
@@ -422,7 +436,16 @@ var envMu sync.Mutex
 func newWorld(t *Term, rep int, scripted bool, seed int64) *world {
 	w := &world{rep: rep, rnd: rand.New(rand.NewSource(seed)), remotes: map[int]trace.SpanContext{},
 		rp: &recProc{starts: map[trace.SpanID][]sdktrace.ReadWriteSpan{}, ends: map[trace.SpanID]int{}},
-		ea: &memExp{}, eb: &memExp{}}
+		ea: &memExp{}, eb: &memExp{}, term: t, scripted: scripted,
+		extraSid: map[trace.SpanID]int{}, extraTid: map[trace.TraceID]int{}}
+	w.newProvider()
+	return w
+}
+
+// newProvider builds one more TracerProvider of the process: same sampler term, its own processors
+// (simple + batch, feeding the world's two exporters) and its own ID generator.
+func (w *world) newProvider() {
+	t, rep := w.term, w.rep
 	opts := []sdktrace.TracerProviderOption{
 		sdktrace.WithSpanProcessor(w.rp),
 		sdktrace.WithSyncer(w.ea),
@@ -431,13 +454,15 @@ func newWorld(t *Term, rep int, scripted bool, seed int64) *world {
 	if rep%2 == 1 { // processor order must not matter
 		opts[0], opts[2] = opts[2], opts[0]
 	}
-	if scripted {
-		w.gen = &scriptGen{rep: rep, rnd: w.rnd}
-		opts = append(opts, sdktrace.WithIDGenerator(w.gen))
+	if w.scripted {
+		g := &scriptGen{rep: rep, rnd: w.rnd, prov: uint64(len(w.tps))}
+		w.gens = append(w.gens, g)
+		opts = append(opts, sdktrace.WithIDGenerator(g))
 	}
+	var tp *sdktrace.TracerProvider
 	if s := build(t, rep); s != nil {
 		opts = append(opts, sdktrace.WithSampler(s))
-		w.tp = sdktrace.NewTracerProvider(opts...)
+		tp = sdktrace.NewTracerProvider(opts...)
 	} else {
 		// the sampler comes from the environment: process-global, hence serialized
 		envMu.Lock()
@@ -451,13 +476,13 @@ func newWorld(t *Term, rep int, scripted bool, seed int64) *world {
 				os.Setenv("OTEL_TRACES_SAMPLER_ARG", v)
 			}
 		}
-		w.tp = sdktrace.NewTracerProvider(opts...)
+		tp = sdktrace.NewTracerProvider(opts...)
 		os.Unsetenv("OTEL_TRACES_SAMPLER")
 		os.Unsetenv("OTEL_TRACES_SAMPLER_ARG")
 		envMu.Unlock()
 	}
-	w.tr = w.tp.Tracer("c09")
-	return w
+	w.tps = append(w.tps, tp)
+	w.trs = append(w.trs, tp.Tracer("c09"))
 }
 
 func (w *world) remote(j int, r RC) trace.SpanContext {
@@ -496,10 +521,35 @@ func (w *world) start(a Act) {
 	if (n+w.rep)%2 == 1 {
 		opts = append(opts, trace.WithSpanKind(kinds[(n+w.rep)%len(kinds)]), trace.WithAttributes(attribute.Int("n", n)))
 	}
-	if w.gen != nil {
-		w.gen.nextHi = a.Hi
+	p := a.P - 1
+	if p < 0 {
+		p = 0
 	}
-	ctx2, span := w.tr.Start(ctx, fmt.Sprintf("s%d", n), opts...)
+	if p >= len(w.tps) {
+		panic(fmt.Sprintf("Start on provider %d of %d", a.P, len(w.tps)))
+	}
+	if w.scripted {
+		w.gens[p].nextHi = a.Hi
+	}
+	// the model begins a fresh trace iff there is no valid parent (or WithNewRoot)
+	fresh := a.NewRoot || a.Kind == "none" || (a.Kind == "remote" && !a.R.Valid)
+	var ctx2 context.Context
+	var span trace.Span
+	for try := 0; ; try++ {
+		ctx2, span = w.trs[p].Start(ctx, fmt.Sprintf("s%d", n), opts...)
+		if !w.matchHi || !fresh || hiOf(span.SpanContext().TraceID()) == a.Hi {
+			break
+		}
+		if try >= 400 { // (7/8)^400: the code does not draw fresh trace IDs here; report what it did
+			w.gaveUp++
+			break
+		}
+		x := span.SpanContext()
+		w.extraSid[x.SpanID()]++
+		w.extraTid[x.TraceID()]++
+		w.discarded++
+		span.End()
+	}
 	sc := span.SpanContext()
 	ok := trace.SpanContextFromContext(ctx2).Equal(sc)
 	w.rp.mu.Lock()
@@ -526,11 +576,17 @@ func hiOf(t trace.TraceID) int {
 
 // observe flushes the processors and projects every started span.
 func (w *world) observe() []SpanSt {
-	if err := w.tp.ForceFlush(context.Background()); err != nil {
-		panic("ForceFlush: " + err.Error())
+	for _, tp := range w.tps {
+		if err := tp.ForceFlush(context.Background()); err != nil {
+			panic("ForceFlush: " + err.Error())
+		}
 	}
 	out := make([]SpanSt, 0, len(w.spans))
+	// uniqueness is over the PROCESS: every provider's spans, the set-aside ones, the contexts from outside
 	seenSid := map[trace.SpanID]int{}
+	for sid, n := range w.extraSid {
+		seenSid[sid] += n
+	}
 	for _, sc := range w.remotes {
 		if sc.SpanID().IsValid() {
 			seenSid[sc.SpanID()]++
@@ -549,14 +605,19 @@ func (w *world) observe() []SpanSt {
 	for _, s := range w.spans {
 		sc := s.span.SpanContext()
 		if _, ok := labels[sc.TraceID()]; !ok {
-			fresh++
-			labels[sc.TraceID()] = fresh
+			if w.extraTid[sc.TraceID()] > 0 { // a "fresh" trace ID another span of the process already had
+				labels[sc.TraceID()] = -1
+			} else {
+				fresh++
+				labels[sc.TraceID()] = fresh
+			}
 		}
 		w.rp.mu.Lock()
 		st := SpanSt{
 			Tr: labels[sc.TraceID()], Hi: hiOf(sc.TraceID()), TidOK: sc.TraceID().IsValid(),
 			SidOK: sc.SpanID().IsValid() && seenSid[sc.SpanID()] == 1, ParOK: s.parOK,
-			Sampled: sc.IsSampled(), Rec: s.span.IsRecording(), TS: absTS(sc.TraceState(), w.rep),
+			Sampled: sc.TraceFlags()&trace.FlagsSampled != 0, Flx: int(sc.TraceFlags() &^ trace.FlagsSampled),
+			Rec:     s.span.IsRecording(), TS: absTS(sc.TraceState(), w.rep),
 			OnStart: len(w.rp.starts[sc.SpanID()]), OnEnd: w.rp.ends[sc.SpanID()],
 		}
 		w.rp.mu.Unlock()
@@ -567,7 +628,11 @@ func (w *world) observe() []SpanSt {
 	return out
 }
 
-func (w *world) close() { _ = w.tp.Shutdown(context.Background()) }
+func (w *world) close() {
+	for _, tp := range w.tps {
+		_ = tp.Shutdown(context.Background())
+	}
+}
 
 // diff names the first component in which the real forest differs from the model's ("" = none).
 func diff(got, want []SpanSt) (string, int) {
@@ -587,6 +652,8 @@ func diff(got, want []SpanSt) (string, int) {
 			return "hi", i
 		case g.Sampled != m.Sampled:
 			return "sampled", i
+		case g.Flx&^m.Flx != 0: // every sub-mask of the context's other bits is admitted
+			return "flx", i
 		case g.Rec != m.Rec:
 			return "rec", i
 		case g.TS != m.TS && g.TS != m.TSAlt:
@@ -607,7 +674,7 @@ func diff(got, want []SpanSt) (string, int) {
 }
 
 // run executes acts (Configure first) and returns the observed forest.
-func run(acts []Act, rep int, scripted bool, seed int64) (obs []SpanSt, w *world, panicked any) {
+func run(acts []Act, rep int, seed int64) (obs []SpanSt, w *world, panicked any) {
 	defer func() {
 		if r := recover(); r != nil {
 			panicked = r
@@ -616,10 +683,13 @@ func run(acts []Act, rep int, scripted bool, seed int64) (obs []SpanSt, w *world
 	if len(acts) == 0 || acts[0].Op != "Configure" {
 		panic("behaviour does not begin with Configure")
 	}
-	w = newWorld(acts[0].Sampler, rep, scripted, seed)
+	w = newWorld(acts[0].Sampler, rep, rep < 3, seed)
+	w.matchHi = rep >= 3
 	defer w.close()
 	for _, a := range acts[1:] {
 		switch a.Op {
+		case "NewProv":
+			w.newProvider()
 		case "Start":
 			w.start(a)
 		case "End":
@@ -640,13 +710,16 @@ func parentClass(a Act) string {
 			b bool
 			y string
 			n string
-		}{{a.R.Valid, "valid", "invalid"}, {a.R.Remote, "remote", "nonremote"}, {a.R.Sampled, "sampled", "unsampled"}, {a.R.TS != "", "ts", "nots"}} {
+		}{{a.R.Valid, "valid", "invalid"}, {a.R.Remote, "remote", "nonremote"}, {a.R.Fl&1 == 1, "sampled", "unsampled"}, {a.R.TS != "", "ts", "nots"}} {
 			if f.b {
 				s += ":" + f.y
 			} else {
 				s += ":" + f.n
 			}
 		}
+	}
+	if a.Kind == "remote" && a.R.Fl > 1 {
+		s += fmt.Sprintf(":fl%02x", a.R.Fl)
 	}
 	if a.NewRoot {
 		s += ":newroot"
@@ -711,8 +784,15 @@ func replay(args []string) {
 					rs = []int{int((int64(i) + vh.Seed()) % 3)}
 				}
 				for _, rep := range rs {
-					got, _, p := run(acts, rep, true, vh.Seed()*1000003+int64(i))
+					got, w, p := run(acts, rep, vh.Seed()*1000003+int64(i))
 					atomic.AddInt64(&res.Executed, 1)
+					if w != nil && rep >= 3 {
+						res.Count("default_gen_executions", 1)
+						res.Count("default_gen_set_aside", int64(w.discarded))
+						if w.gaveUp > 0 {
+							res.Count("default_gen_gave_up", int64(w.gaveUp))
+						}
+					}
 					term := acts[0].Sampler
 					if p != nil {
 						res.AddMismatch(vh.Mismatch{Kind: "panic", Case: map[string]any{"why": "panic", "sampler": term.String()}, Path: acts, Detail: fmt.Sprint(p)})
@@ -748,6 +828,9 @@ func countRegimes(res *vh.Result, acts []Act, want []SpanSt) {
 		if last.Op == "End" {
 			res.Count("end_edges", 1)
 		}
+		if last.Op == "NewProv" {
+			res.Count("newprov_edges", 1)
+		}
 		return
 	}
 	sp := want[len(want)-1]
@@ -769,6 +852,24 @@ func countRegimes(res *vh.Result, acts []Act, want []SpanSt) {
 		res.Count("start_newroot", 1)
 	}
 	res.Count("start_parent_"+last.Kind, 1)
+	if last.Kind == "remote" && last.R.Fl > 1 {
+		res.Count(fmt.Sprintf("start_parent_flags_%02x", last.R.Fl), 1)
+	}
+	if sp.Flx != 0 {
+		res.Count("start_other_flag_bits", 1)
+		if last.Kind == "local" {
+			res.Count("start_local_parent_other_flag_bits", 1)
+		}
+	}
+	if last.P > 1 {
+		res.Count("start_on_later_provider", 1)
+	}
+	for _, a := range acts {
+		if a.Op == "NewProv" {
+			res.Count("start_with_several_providers", 1)
+			break
+		}
+	}
 }
 
 // ------------------------------------------------------------------ code -> spec: random forests
@@ -799,6 +900,17 @@ func randTerm(r *rand.Rand, depth int) *Term {
 	return &Term{K: "pb", Root: randTerm(r, depth-1), RS: sub("on"), RNS: sub("off"), LS: sub("on"), LNS: sub("off")}
 }
 
+// randFlags draws a trace-flags byte: the model's domain, or any byte.
+func randFlags(r *rand.Rand) int {
+	switch x := r.Intn(10); {
+	case x < 7:
+		return []int{0x00, 0x01, 0x02, 0x03, 0x80, 0x81, 0xff}[x]
+	case x == 7:
+		return []int{0x00, 0x01}[r.Intn(2)]
+	}
+	return r.Intn(256)
+}
+
 func forest(args []string) {
 	fs := flag.NewFlagSet("forest", flag.ExitOnError)
 	n := fs.Int("n", 200, "")
@@ -822,7 +934,10 @@ func forest(args []string) {
 		nrem := 1 + r.Intn(4)
 		rems := make([]RC, nrem)
 		for j := range rems {
-			rems[j] = RC{Valid: r.Intn(5) > 0, Remote: r.Intn(4) > 0, Sampled: r.Intn(2) == 0, TS: []string{"", "p"}[r.Intn(2)]}
+			rems[j] = RC{Valid: r.Intn(5) > 0, Remote: r.Intn(4) > 0, Fl: randFlags(r), TS: []string{"", "p"}[r.Intn(2)]}
+			if rems[j].Fl > 1 {
+				res.Count("forest_ctx_other_flag_bits", 1)
+			}
 			if rems[j].Valid {
 				rems[j].Hi = r.Intn(8)
 			}
@@ -832,11 +947,24 @@ func forest(args []string) {
 		w := newWorld(term, rep, false, r.Int63())
 		nsp := 0
 		steps := 3 + r.Intn(14)
+		// 1..8 providers with default ID generators, built at different times of the scenario
+		maxProv := 1
+		if r.Intn(5) > 1 {
+			maxProv = 2 + r.Intn(7)
+		}
+		for len(w.tps) < maxProv && r.Intn(2) == 0 { // some up-front, in a tight loop
+			w.newProvider()
+			acts = append(acts, Act{Op: "NewProv"})
+		}
 		var pan any
 		func() {
 			defer func() { pan = recover() }()
 			for s := 0; s < steps; s++ {
 				var a Act
+				if len(w.tps) < maxProv && r.Intn(3) == 0 { // ... the others while spans are being started
+					w.newProvider()
+					acts = append(acts, Act{Op: "NewProv"})
+				}
 				switch x := r.Intn(10); {
 				case x < 2 || nsp == 0 && x < 5:
 					a = Act{Op: "Start", Kind: "none"}
@@ -850,6 +978,10 @@ func forest(args []string) {
 				}
 				if a.Op == "Start" {
 					a.NewRoot = r.Intn(8) == 0
+					a.P = 1 + r.Intn(len(w.tps))
+					if r.Intn(3) > 0 { // prefer the youngest provider: its generator's first draws
+						a.P = len(w.tps)
+					}
 					w.start(a)
 					// hi = class of the trace ID the SDK's own random generator handed out
 					a.Hi = hiOf(w.spans[nsp].span.SpanContext().TraceID())
@@ -869,7 +1001,13 @@ func forest(args []string) {
 		w.close()
 		res.Executed++
 		res.Evaluations += int64(nsp)
+		if len(w.tps) > 1 {
+			res.Count("forest_several_providers", 1)
+		}
 		for _, o := range obs {
+			if o.Flx != 0 {
+				res.Count("forest_span_other_flag_bits", 1)
+			}
 			switch {
 			case o.Sampled:
 				res.Count("forest_sampled", 1)
@@ -881,9 +1019,10 @@ func forest(args []string) {
 		}
 		ja := make([]any, 0, len(acts)-1)
 		for _, a := range acts[1:] {
-			ja = append(ja, map[string]any{"op": a.Op, "kind": a.Kind, "i": a.I, "newRoot": a.NewRoot, "hi": a.Hi})
+			ja = append(ja, map[string]any{"op": a.Op, "kind": a.Kind, "i": a.I, "newRoot": a.NewRoot, "hi": a.Hi, "p": a.P})
 		}
-		tw.Emit(map[string]any{"ev": "Forest", "sc": sc, "sampler": term.JSON(), "remotes": rems, "acts": ja, "obs": obs, "rep": rep})
+		tw.Emit(map[string]any{"ev": "Forest", "sc": sc, "sampler": term.JSON(), "remotes": rems, "acts": ja, "obs": obs, "rep": rep,
+			"nprov": len(w.tps)})
 		if sc < 2 {
 			res.Sample(map[string]any{"sampler": term.String(), "acts": ja})
 		}
@@ -1059,72 +1198,78 @@ func ratioCmd(args []string) {
 
 // ------------------------------------------------------------------ code -> spec: IDs and shares
 
-func idsCmd(args []string) {
-	fs := flag.NewFlagSet("ids", flag.ExitOnError)
-	n := fs.Int("n", 200000, "spans in the ID run")
-	g := fs.Int("g", 8, "goroutines")
-	shareN := fs.Int("share", 1<<17, "root spans per share measurement")
-	out := fs.String("out", "trace.ndjson", "")
-	resF := fs.String("res", "result.json", "")
-	fs.Parse(args)
-	tw, err := vh.NewTraceWriter(*out)
-	vh.Must(err)
-	res := vh.NewResult()
-	r0 := rand.New(rand.NewSource(vh.Seed() + 99))
+type idRec struct {
+	tid   trace.TraceID
+	sid   trace.SpanID
+	ptid  trace.TraceID
+	child bool
+}
 
-	// (1) default random ID generator under concurrency: several providers? no -- ONE provider
-	// (the generator is per provider; uniqueness "within the process" is exercised with two).
-	type rec struct {
-		tid    trace.TraceID
-		sid    trace.SpanID
-		ptid   trace.TraceID
-		child  bool
-		remote bool
+func idSampler() sdktrace.TracerProviderOption {
+	return sdktrace.WithSampler(sdktrace.ParentBased(sdktrace.TraceIDRatioBased(0.5)))
+}
+
+// provPool is the growing set of providers of a scenario (providers appear while others produce IDs).
+type provPool struct {
+	mu  sync.RWMutex
+	trs []trace.Tracer
+}
+
+func (p *provPool) add() {
+	tp := sdktrace.NewTracerProvider(idSampler())
+	p.mu.Lock()
+	p.trs = append(p.trs, tp.Tracer("ids"))
+	p.mu.Unlock()
+}
+
+func (p *provPool) pick(r *rand.Rand) trace.Tracer {
+	p.mu.RLock()
+	defer p.mu.RUnlock()
+	if r.Intn(2) == 0 { // the youngest provider: the first draws of its generator
+		return p.trs[len(p.trs)-1]
 	}
-	tps := []*sdktrace.TracerProvider{
-		sdktrace.NewTracerProvider(sdktrace.WithSampler(sdktrace.ParentBased(sdktrace.TraceIDRatioBased(0.5)))),
+	return p.trs[r.Intn(len(p.trs))]
+}
+
+func (p *provPool) size() int {
+	p.mu.RLock()
+	defer p.mu.RUnlock()
+	return len(p.trs)
+}
+
+// produce starts `per` spans (roots and children of earlier spans of ANY provider of the pool).
+func produce(pool *provPool, r *rand.Rand, per int) []idRec {
+	my := make([]idRec, 0, per)
+	var stack []context.Context
+	var stid []trace.TraceID
+	for i := 0; i < per; i++ {
+		var ctx context.Context
+		var ptid trace.TraceID
+		child := false
+		if len(stack) > 0 && r.Intn(3) > 0 {
+			k := r.Intn(len(stack))
+			ctx, ptid, child = stack[k], stid[k], true
+		} else {
+			ctx = context.Background()
+		}
+		c2, sp := pool.pick(r).Start(ctx, "s")
+		sc := sp.SpanContext()
+		my = append(my, idRec{tid: sc.TraceID(), sid: sc.SpanID(), ptid: ptid, child: child})
+		if len(stack) < 6 {
+			stack = append(stack, c2)
+			stid = append(stid, sc.TraceID())
+		} else if r.Intn(2) == 0 {
+			k := r.Intn(len(stack))
+			stack[k], stid[k] = c2, sc.TraceID()
+		}
+		if r.Intn(4) == 0 {
+			sp.End()
+		}
 	}
-	per := *n / *g
-	recs := make([][]rec, *g)
-	var wg sync.WaitGroup
-	for gi := 0; gi < *g; gi++ {
-		wg.Add(1)
-		seed := r0.Int63()
-		go func(gi int) {
-			defer wg.Done()
-			r := rand.New(rand.NewSource(seed))
-			tr := tps[0].Tracer(fmt.Sprint("g", gi%3))
-			my := make([]rec, 0, per)
-			var stack []context.Context
-			var stid []trace.TraceID
-			for i := 0; i < per; i++ {
-				var ctx context.Context
-				var ptid trace.TraceID
-				child := false
-				if len(stack) > 0 && r.Intn(3) > 0 {
-					k := r.Intn(len(stack))
-					ctx, ptid, child = stack[k], stid[k], true
-				} else {
-					ctx = context.Background()
-				}
-				c2, sp := tr.Start(ctx, "s")
-				sc := sp.SpanContext()
-				my = append(my, rec{tid: sc.TraceID(), sid: sc.SpanID(), ptid: ptid, child: child})
-				if len(stack) < 6 {
-					stack = append(stack, c2)
-					stid = append(stid, sc.TraceID())
-				} else if r.Intn(2) == 0 {
-					k := r.Intn(len(stack))
-					stack[k], stid[k] = c2, sc.TraceID()
-				}
-				if r.Intn(4) == 0 {
-					sp.End()
-				}
-			}
-			recs[gi] = my
-		}(gi)
-	}
-	wg.Wait()
+	return my
+}
+
+func emitIds(tw *vh.TraceWriter, res *vh.Result, src string, nprov, gor int, recs [][]idRec) {
 	sids := map[trace.SpanID]struct{}{}
 	rootT := map[trace.TraceID]struct{}{}
 	total, invSid, invTid, roots, children, childEq := 0, 0, 0, 0, 0, 0
@@ -1149,11 +1294,161 @@ func idsCmd(args []string) {
 			}
 		}
 	}
-	tw.Emit(map[string]any{"ev": "Ids", "n": total, "distinctSid": len(sids), "invalidSid": invSid, "invalidTid": invTid,
-		"roots": roots, "distinctRootTid": len(rootT), "children": children, "childTidEq": childEq, "goroutines": *g})
+	tw.Emit(map[string]any{"ev": "Ids", "src": src, "nprov": nprov, "n": total, "distinctSid": len(sids), "invalidSid": invSid,
+		"invalidTid": invTid, "roots": roots, "distinctRootTid": len(rootT), "children": children, "childTidEq": childEq,
+		"goroutines": gor})
 	res.Executed += int64(total)
 	res.Count("id_spans", int64(total))
-	_ = tps[0].Shutdown(context.Background())
+	res.Count("id_spans_"+src, int64(total))
+	res.Count("id_providers_"+src, int64(nprov))
+}
+
+func idScenarios(tw *vh.TraceWriter, res *vh.Result, r0 *rand.Rand, n, g int) {
+	fan := func(pool *provPool, gor, per int, during func()) [][]idRec {
+		recs := make([][]idRec, gor)
+		var wg sync.WaitGroup
+		for gi := 0; gi < gor; gi++ {
+			wg.Add(1)
+			seed := r0.Int63()
+			go func(gi int) {
+				defer wg.Done()
+				recs[gi] = produce(pool, rand.New(rand.NewSource(seed)), per)
+			}(gi)
+		}
+		if during != nil {
+			during()
+		}
+		wg.Wait()
+		return recs
+	}
+	// one provider, g goroutines (as before)
+	{
+		pool := &provPool{}
+		pool.add()
+		emitIds(tw, res, "one", 1, g, fan(pool, g, n/g/2, nil))
+	}
+	rounds := 3
+	if vh.Thorough() {
+		rounds = 10
+	}
+	m := n / 2 / (rounds * 3)
+	for round := 0; round < rounds; round++ {
+		k := 2 + r0.Intn(7)
+		// up-front: k providers built one after the other, then interleaved Start calls from g goroutines
+		{
+			pool := &provPool{}
+			for i := 0; i < k; i++ {
+				pool.add()
+			}
+			emitIds(tw, res, "upfront", k, g, fan(pool, g, m/g, nil))
+		}
+		// staggered: providers appear while the others are producing IDs (before / after / between)
+		{
+			pool := &provPool{}
+			pool.add()
+			pre := produce(pool, rand.New(rand.NewSource(r0.Int63())), 1+r0.Intn(50))
+			recs := fan(pool, g, m/g, func() {
+				for i := 1; i < k; i++ {
+					time.Sleep(time.Duration(r0.Intn(300)) * time.Microsecond)
+					pool.add()
+				}
+			})
+			emitIds(tw, res, "staggered", pool.size(), g, append(recs, pre))
+		}
+		// concurrent: k goroutines build their providers at the same moment and start spans at once
+		{
+			pool := &provPool{}
+			pool.add()
+			startCh := make(chan struct{})
+			recs := make([][]idRec, k)
+			var wg sync.WaitGroup
+			for gi := 0; gi < k; gi++ {
+				wg.Add(1)
+				seed := r0.Int63()
+				go func(gi int) {
+					defer wg.Done()
+					<-startCh
+					pool.add()
+					recs[gi] = produce(pool, rand.New(rand.NewSource(seed)), m/k)
+				}(gi)
+			}
+			close(startCh)
+			wg.Wait()
+			emitIds(tw, res, "concurrent", pool.size(), k, recs)
+		}
+	}
+	// tight loop: many providers built back to back (same clock reading, same allocation pattern),
+	// the FIRST IDs of each generator: a root, a child of it by the next provider, a second root
+	{
+		batches, bsz := 8, 256
+		if vh.Thorough() {
+			batches = 40
+		}
+		var all []idRec
+		for b := 0; b < batches; b++ {
+			tps := make([]trace.Tracer, bsz)
+			for i := range tps {
+				tps[i] = sdktrace.NewTracerProvider(idSampler()).Tracer("ids")
+			}
+			for i, tr := range tps {
+				c1, s1 := tr.Start(context.Background(), "s")
+				_, s2 := tps[(i+1)%bsz].Start(c1, "s")
+				_, s3 := tr.Start(context.Background(), "s")
+				all = append(all, idRec{tid: s1.SpanContext().TraceID(), sid: s1.SpanContext().SpanID()},
+					idRec{tid: s2.SpanContext().TraceID(), sid: s2.SpanContext().SpanID(), ptid: s1.SpanContext().TraceID(), child: true},
+					idRec{tid: s3.SpanContext().TraceID(), sid: s3.SpanContext().SpanID()})
+			}
+		}
+		emitIds(tw, res, "tight-loop", batches*bsz, 1, [][]idRec{all})
+	}
+	// mass: g goroutines build providers back to back at the same time; the first root of each
+	{
+		per := 1500
+		if vh.Thorough() {
+			per = 8000
+		}
+		recs := make([][]idRec, g)
+		startCh := make(chan struct{})
+		var wg sync.WaitGroup
+		for gi := 0; gi < g; gi++ {
+			wg.Add(1)
+			go func(gi int) {
+				defer wg.Done()
+				<-startCh
+				my := make([]idRec, 0, 2*per)
+				for i := 0; i < per; i++ {
+					tr := sdktrace.NewTracerProvider(idSampler()).Tracer("ids")
+					c1, s1 := tr.Start(context.Background(), "s")
+					_, s2 := tr.Start(c1, "s")
+					my = append(my, idRec{tid: s1.SpanContext().TraceID(), sid: s1.SpanContext().SpanID()},
+						idRec{tid: s2.SpanContext().TraceID(), sid: s2.SpanContext().SpanID(), ptid: s1.SpanContext().TraceID(), child: true})
+				}
+				recs[gi] = my
+			}(gi)
+		}
+		close(startCh)
+		wg.Wait()
+		emitIds(tw, res, "mass", g*per, g, recs)
+	}
+}
+
+func idsCmd(args []string) {
+	fs := flag.NewFlagSet("ids", flag.ExitOnError)
+	n := fs.Int("n", 200000, "spans in the ID run")
+	g := fs.Int("g", 8, "goroutines")
+	shareN := fs.Int("share", 1<<17, "root spans per share measurement")
+	out := fs.String("out", "trace.ndjson", "")
+	resF := fs.String("res", "result.json", "")
+	fs.Parse(args)
+	tw, err := vh.NewTraceWriter(*out)
+	vh.Must(err)
+	res := vh.NewResult()
+	r0 := rand.New(rand.NewSource(vh.Seed() + 99))
+
+	// (1) default random ID generators: one provider under concurrency, then 2..8 (and thousands of)
+	// providers of the same process created up-front / staggered / concurrently / in tight loops.
+	// Uniqueness is over the UNION of everything the process started.
+	idScenarios(tw, res, r0, *n, *g)
 
 	// (2) sampled share of root spans: ratio k/64, N roots, SDK random generator (end to end)
 	for _, k := range []int{0, 1, 5, 16, 32, 47, 63, 64} {
@@ -1190,13 +1485,312 @@ func idsCmd(args []string) {
 	vh.Must(res.Write(*resF))
 }
 
+// ------------------------------------------------------------------ code -> spec: processors, flags, flushes
+
+// idxExp records which spans (index = SpanID as a number / the number in the span name) reached it.
+type idxExp struct {
+	mu     sync.Mutex
+	got    []int
+	broken int // entries that were nil / could not be read (not a C09 matter; counted)
+	calls  int
+	delay  func() time.Duration
+}
+
+func spanIndex(s sdktrace.ReadOnlySpan) (idx int, ok bool) {
+	defer func() {
+		if recover() != nil {
+			idx, ok = 0, false
+		}
+	}()
+	if s == nil {
+		return 0, false
+	}
+	n, err := strconv.Atoi(strings.TrimLeft(s.Name(), "SRDP"))
+	if err != nil {
+		return 0, false
+	}
+	return n, true
+}
+
+func (e *idxExp) ExportSpans(_ context.Context, spans []sdktrace.ReadOnlySpan) error {
+	my := make([]int, 0, len(spans))
+	bad := 0
+	for _, s := range spans {
+		if i, ok := spanIndex(s); ok {
+			my = append(my, i)
+		} else {
+			bad++
+		}
+	}
+	if e.delay != nil {
+		if d := e.delay(); d > 0 {
+			time.Sleep(d)
+		}
+	}
+	e.mu.Lock()
+	e.got = append(e.got, my...)
+	e.broken += bad
+	e.calls++
+	e.mu.Unlock()
+	return nil
+}
+func (e *idxExp) Shutdown(context.Context) error { return nil }
+
+var procFlags = []int{0x00, 0x01, 0x02, 0x03, 0x80, 0x81, 0xfe, 0xff, 0x05, 0x41, 0x40}
+
+// procScenario hands ended spans whose contexts carry the given flag bytes directly to a span
+// processor (tracetest snapshots: the processors' public OnEnd contract) and reports how often each
+// reached the exporter.
+func procScenario(tw *vh.TraceWriter, res *vh.Result, r *rand.Rand, kind string) {
+	exp := &idxExp{}
+	var sp sdktrace.SpanProcessor
+	switch kind {
+	case "ssp":
+		sp = sdktrace.NewSimpleSpanProcessor(exp)
+	case "bsp":
+		sp = sdktrace.NewBatchSpanProcessor(exp, sdktrace.WithBatchTimeout(time.Hour), sdktrace.WithMaxExportBatchSize(1+r.Intn(4)))
+	case "bsp-blocking":
+		sp = sdktrace.NewBatchSpanProcessor(exp, sdktrace.WithBatchTimeout(time.Hour), sdktrace.WithBlocking())
+	}
+	n := 8 + r.Intn(24)
+	fls := make([]int, n)
+	for k := range fls {
+		if r.Intn(4) == 0 {
+			fls[k] = r.Intn(256)
+		} else {
+			fls[k] = procFlags[r.Intn(len(procFlags))]
+		}
+		var tid trace.TraceID
+		var sid trace.SpanID
+		binary.BigEndian.PutUint64(tid[8:], r.Uint64()|1)
+		binary.BigEndian.PutUint64(sid[:], uint64(k+1))
+		stub := tracetest.SpanStub{Name: strconv.Itoa(k + 1), StartTime: time.Now(), EndTime: time.Now(),
+			SpanContext: trace.NewSpanContext(trace.SpanContextConfig{TraceID: tid, SpanID: sid, TraceFlags: trace.TraceFlags(fls[k]),
+				Remote: false})}
+		sp.OnEnd(stub.Snapshot())
+		if fls[k] > 1 {
+			res.Count("proc_other_flag_bits", 1)
+		}
+	}
+	ffErr := sp.ForceFlush(context.Background())
+	sdErr := sp.Shutdown(context.Background())
+	if ffErr != nil || sdErr != nil {
+		res.Count("proc_discarded", 1)
+		return
+	}
+	cnt := make([]int, n)
+	exp.mu.Lock()
+	for _, i := range exp.got {
+		if i >= 1 && i <= n {
+			cnt[i-1]++
+		}
+	}
+	exp.mu.Unlock()
+	tw.Emit(map[string]any{"ev": "Proc", "proc": kind, "fls": fls, "exp": cnt})
+	res.Executed++
+	res.Evaluations += int64(n)
+	res.Count("proc_scenarios", 1)
+}
+
+// nameSampler decides by the first letter of the span name: S RecordAndSample, R RecordOnly, D Drop,
+// P as the default ParentBased(AlwaysSample) does.
+type nameSampler struct{ pb sdktrace.Sampler }
+
+func (s nameSampler) ShouldSample(p sdktrace.SamplingParameters) sdktrace.SamplingResult {
+	ts := trace.SpanContextFromContext(p.ParentContext).TraceState()
+	switch p.Name[0] {
+	case 'S':
+		return sdktrace.SamplingResult{Decision: sdktrace.RecordAndSample, Tracestate: ts}
+	case 'R':
+		return sdktrace.SamplingResult{Decision: sdktrace.RecordOnly, Tracestate: ts}
+	case 'D':
+		return sdktrace.SamplingResult{Decision: sdktrace.Drop, Tracestate: ts}
+	}
+	return s.pb.ShouldSample(p)
+}
+func (nameSampler) Description() string { return "byName" }
+
+var flushDrops int64
+
+// flushScenario: producers start/end sampled and unsampled spans on a provider with a batch
+// processor (small batches, tiny timeout, slow-ish exporter, queue that cannot overflow) while
+// flushers call ForceFlush in a loop; then final ForceFlush + Shutdown.
+func flushScenario(tw *vh.TraceWriter, res *vh.Result, r *rand.Rand, sc int) {
+	producers := 2 + r.Intn(5)
+	per := 60 + r.Intn(240)
+	flushers := 1 + r.Intn(2)
+	pace := []int{4, 8, 16}[r.Intn(3)]
+	const maxFF = 4000
+	total := producers * per
+	slow := []int{0, 20, 100, 300, 1000}[r.Intn(5)] // microseconds, upper bound of the exporter's delay
+	var dmu sync.Mutex
+	dr := rand.New(rand.NewSource(r.Int63()))
+	exp := &idxExp{delay: func() time.Duration {
+		if slow == 0 {
+			return 0
+		}
+		dmu.Lock()
+		defer dmu.Unlock()
+		return time.Duration(dr.Intn(slow)) * time.Microsecond
+	}}
+	bopts := []sdktrace.BatchSpanProcessorOption{
+		sdktrace.WithMaxQueueSize(total + flushers*maxFF + 64), // nothing can ever find the queue full
+		sdktrace.WithMaxExportBatchSize(1 + r.Intn(8)),
+		sdktrace.WithBatchTimeout(time.Duration(50+r.Intn(2000)) * time.Microsecond),
+	}
+	if r.Intn(4) == 0 {
+		bopts = append(bopts, sdktrace.WithBlocking())
+	}
+	atomic.StoreInt64(&flushDrops, 0)
+	tp := sdktrace.NewTracerProvider(sdktrace.WithSampler(nameSampler{pb: sdktrace.ParentBased(sdktrace.AlwaysSample())}),
+		sdktrace.WithBatcher(exp, bopts...))
+	tr := tp.Tracer("flush")
+	sampled := make([][]int, producers) // indices of the spans whose started context had the sampled flag
+	var done int32
+	var pw, fw sync.WaitGroup
+	var ffErrs, ffCalls int64
+	for f := 0; f < flushers; f++ {
+		fw.Add(1)
+		pause := r.Intn(300)
+		go func() {
+			defer fw.Done()
+			for i := 0; i < maxFF && atomic.LoadInt32(&done) == 0; i++ {
+				if err := tp.ForceFlush(context.Background()); err != nil {
+					atomic.AddInt64(&ffErrs, 1)
+				}
+				atomic.AddInt64(&ffCalls, 1)
+				if pause > 0 {
+					time.Sleep(time.Duration(pause) * time.Microsecond)
+				}
+			}
+		}()
+	}
+	for g := 0; g < producers; g++ {
+		pw.Add(1)
+		seed := r.Int63()
+		go func(g int) {
+			defer pw.Done()
+			rr := rand.New(rand.NewSource(seed))
+			var open []trace.Span
+			var octx []context.Context
+			for i := 0; i < per; i++ {
+				idx := g*per + i + 1
+				ctx := context.Background()
+				letter := "SSSRDP"[rr.Intn(6)]
+				switch rr.Intn(4) {
+				case 0: // a span context from outside, any flags byte
+					var tid trace.TraceID
+					var sid trace.SpanID
+					binary.BigEndian.PutUint64(tid[0:8], uint64(idx))
+					binary.BigEndian.PutUint64(tid[8:16], rr.Uint64())
+					binary.BigEndian.PutUint64(sid[:], 1<<63|uint64(idx))
+					psc := trace.NewSpanContext(trace.SpanContextConfig{TraceID: tid, SpanID: sid,
+						TraceFlags: trace.TraceFlags(procFlags[rr.Intn(len(procFlags))]), Remote: rr.Intn(2) == 0})
+					ctx = trace.ContextWithSpanContext(ctx, psc)
+					letter = "SPPPRD"[rr.Intn(6)]
+				case 1: // a still open span of this goroutine
+					if len(open) > 0 {
+						ctx = octx[rr.Intn(len(octx))]
+						letter = "SPPPRD"[rr.Intn(6)]
+					}
+				}
+				c2, sp := tr.Start(ctx, string(letter)+strconv.Itoa(idx))
+				if sp.SpanContext().TraceFlags()&trace.FlagsSampled != 0 {
+					sampled[g] = append(sampled[g], idx)
+				}
+				if rr.Intn(3) == 0 && len(open) < 4 {
+					open = append(open, sp)
+					octx = append(octx, c2)
+				} else {
+					sp.End()
+				}
+				if len(open) > 0 && rr.Intn(3) == 0 {
+					k := rr.Intn(len(open))
+					open[k].End()
+					open = append(open[:k], open[k+1:]...)
+					octx = append(octx[:k], octx[k+1:]...)
+				}
+				if rr.Intn(pace) == 0 { // keep producing while the flushers are at work
+					time.Sleep(time.Duration(rr.Intn(300)) * time.Microsecond)
+				}
+			}
+			for _, sp := range open {
+				sp.End()
+			}
+		}(g)
+	}
+	pw.Wait() // every End has returned
+	atomic.StoreInt32(&done, 1)
+	fw.Wait()
+	ffErr := tp.ForceFlush(context.Background()) // called after every End returned
+	sdErr := tp.Shutdown(context.Background())
+	drops := atomic.LoadInt64(&flushDrops)
+	if ffErr != nil || sdErr != nil || atomic.LoadInt64(&ffErrs) > 0 || drops > 0 {
+		res.Count("flush_discarded", 1)
+		return
+	}
+	var want []int
+	for _, s := range sampled {
+		want = append(want, s...)
+	}
+	if want == nil {
+		want = []int{}
+	}
+	exp.mu.Lock()
+	got := append([]int{}, exp.got...)
+	broken, calls := exp.broken, exp.calls
+	exp.mu.Unlock()
+	tw.Emit(map[string]any{"ev": "Flush", "sc": sc, "n": total, "sampled": want, "exported": got, "dropped": drops,
+		"producers": producers, "flushers": flushers, "ffCalls": atomic.LoadInt64(&ffCalls), "exportCalls": calls, "slowUs": slow})
+	res.Executed++
+	res.Evaluations += int64(total)
+	res.Count("flush_scenarios", 1)
+	res.Count("flush_spans", int64(total))
+	res.Count("flush_sampled_spans", int64(len(want)))
+	res.Count("flush_forceflush_calls", atomic.LoadInt64(&ffCalls))
+	res.Count("flush_export_calls", int64(calls))
+	if broken > 0 {
+		res.Count("flush_unreadable_exported_entries", int64(broken))
+	}
+}
+
+func flushCmd(args []string) {
+	fs := flag.NewFlagSet("flush", flag.ExitOnError)
+	n := fs.Int("n", 30, "flush scenarios")
+	np := fs.Int("procs", 60, "processor x flags scenarios")
+	out := fs.String("out", "trace.ndjson", "")
+	resF := fs.String("res", "result.json", "")
+	fs.Parse(args)
+	r := rand.New(rand.NewSource(vh.Seed() + 555))
+	tw, err := vh.NewTraceWriter(*out)
+	vh.Must(err)
+	res := vh.NewResult()
+	// the batch processor's own drop counter (instrumentation point of the verif build): a scenario in
+	// which anything was dropped is set aside, not judged
+	sdktrace.SetVerifHook(func(point string, _ ...any) {
+		if point == "bsp.enq.dropped" {
+			atomic.AddInt64(&flushDrops, 1)
+		}
+	})
+	for i := 0; i < *np; i++ {
+		procScenario(tw, res, r, []string{"ssp", "bsp", "bsp-blocking"}[i%3])
+	}
+	for sc := 0; sc < *n; sc++ {
+		flushScenario(tw, res, r, sc)
+	}
+	sdktrace.SetVerifHook(nil)
+	vh.Must(tw.Close())
+	res.Count("trace_lines", tw.N)
+	vh.Must(res.Write(*resF))
+}
+
 type silent struct{}
 
 func (silent) Handle(error) {}
 
 func main() {
 	if len(os.Args) < 2 {
-		fmt.Println("usage: c09 replay|forest|ratio|ids ...")
+		fmt.Println("usage: c09 replay|forest|ratio|ids|flush ...")
 		os.Exit(3)
 	}
 	otel.SetErrorHandler(silent{})
@@ -1211,6 +1805,8 @@ func main() {
 		ratioCmd(os.Args[2:])
 	case "ids":
 		idsCmd(os.Args[2:])
+	case "flush":
+		flushCmd(os.Args[2:])
 	default:
 		os.Exit(3)
 	}
